@@ -503,6 +503,41 @@ def dynamic(pid, tier, seed, cases):
                                                   "Spec/C19Grammar.v refuses script #%d written by the real tool"
                                                   % v["accepted"].index(False)})
     if pid == "C13":
+        # Spec/C13Doc.v on the real tool: the names the header declares are keep_first of doc_header_symbols(_main/_single),
+        # a list computed from the parsed document alone (C13_document_header, _main_header, _single_header)
+        subh = [c for c in cases if c.raw_yaml is None and isinstance(c.doc, dict)][: (900 if tier == "quick" else 12000)]
+        implh = run.run_impl_only(subh)
+        items, back = [], {}
+        for c in subh:
+            ji = run.normalise(implh[c.cid])
+            if props.outcome(ji)[0] != "ok":
+                continue
+            items.append((c.cid, c.doc, c.opts, c.emit_version, c.partial))
+            back[c.cid] = (c, ji["gen"]["ok"]["main"].get("symbols"))
+        try:
+            hs = run.run_header_spec(items)
+        except Exception as e:
+            hs = None
+            res["proof_broken"] = "the extracted header specification (coq/Spec/C13Doc.v) failed to run: %s" % str(e)[-300:]
+        if hs is None and "proof_broken" not in res:
+            res["proof_broken"] = "the extracted header specification (coq/Spec/C13Doc.v) could not be built"
+        for cid, want in (hs or {}).items():
+            c, got = back[cid]
+            if want is None:
+                continue
+            res["evaluations"] += 1
+            seen, first = set(), []
+            for x in want:
+                if x not in seen:
+                    seen.add(x)
+                    first.append(x)
+            res["features"]["header-spec:" + ("partial" if c.partial else "ordinary")] = \
+                res["features"].get("header-spec:" + ("partial" if c.partial else "ordinary"), 0) + 1
+            if got != first:
+                res["violations"].append({"case": c, "impl": None,
+                                          "what": "the names the real tool records for the header %s differ from doc_header_symbols "
+                                                  "(Spec/C13Doc.v) %s" % (str(got)[:200], str(first)[:200])})
+    if pid == "C13":
         # executed, not proved: the header is a self-contained C file (gcc -fsyntax-only) when the type is a builtin
         import subprocess, tempfile
         sub = [c for c in cases if c.raw_yaml is None][:300]
